@@ -3,6 +3,9 @@ import OpusModel.SilkSynthIdx
 import OpusModel.SilkSynthIdxFrame
 import OpusModel.SilkSynthIdxParams
 import OpusModel.SilkSynthIdxOut
+import OpusModel.SilkStereo
+import OpusModel.RangeCoder
+import OpusModel.SilkSyms
 import Driver.Util
 /- Suite `silkparams` (property C18): SILK side-information dequantisers.
    Lists are `a,b,c`; codebooks are `nbmb` / `wb`. -/
@@ -67,6 +70,26 @@ def nlsf2aPath (nlsf : List Int) : String :=
     let r := lpcFit a32 5
     s!"fit{if clipped then "clip" else "ok"}-bwe{nlsf2aRounds Opus.Gen.SilkNlsf.maxLpcStabilizeIterations 0 r.2 r.1}"
   | _ => "oob"
+
+
+/-! Slice C18 Stereo (OpusModel/SilkStereo.lean): ops `stereo-*`. -/
+
+/-- `stereo-rt`: model quantiser → `silk_stereo_encode_pred` through the range-coder model (`ec_enc_icdf`, 8 bits) into a
+    zeroed `size`-byte buffer, `ec_enc_done` → the symbol layer's `silk_stereo_decode_pred` on those bytes. -/
+def stereoRoundTrip (p0 p1 : Int) (size : Nat) : String :=
+  match Opus.SilkStereo.quantPred p0 p1 [0, 0, 0, 0, 0, 0] with
+  | none => "UB"
+  | some q =>
+    match Opus.SilkStereo.encodeSyms q.ix with
+    | .ok syms =>
+      let tabs := [Opus.Gen.SilkStereoTabs.predJointIcdf, Opus.Gen.SilkStereoTabs.uniform3Icdf,
+                   Opus.Gen.SilkStereoTabs.uniform5Icdf, Opus.Gen.SilkStereoTabs.uniform3Icdf,
+                   Opus.Gen.SilkStereoTabs.uniform5Icdf]
+      let e := (syms.zip tabs).foldl (fun e st => Opus.RangeCoder.encIcdf e st.1.1.toNat st.2 8) (Opus.RangeCoder.encInit (List.replicate size 0) size)
+      let e := Opus.RangeCoder.encDone e
+      let d := Opus.SilkSyms.stereoDecodePred (Opus.RangeCoder.decInit e.buf size)
+      s!"OK {q.pred0} {q.pred1} {intList q.ix} {toHex e.buf} {e.error} {d.1.pred0} {d.1.pred1}"
+    | _ => "ABORT"
 
 def handle : List String → String
   | ["path", "stab", xs, ds] =>
@@ -222,6 +245,35 @@ def handle : List String → String
             | none => "-" | some (lo, hi) => s!"{lo}..{hi}"
           s!"OK core\{{e r.1.core coreTieArrays}} plc\{{e r.1.plc plcTieArrays}} top\{{e r.1.top topTieArrays}} cng\{{e r.1.cng cngTieArrays}} glue\{xq:r={g},w=ok} alloc\{{Opus.SilkSynthIdx.allocStr st.cfg (if fi.lost then [.sLTP, .sLTP_Q14, .exc_buf, .cngSig] else [.pulses, .sLTP, .sLTP_Q15, .res_Q14, .sLPC_Q14])}} init\{{if fi.lost then "sLTP_Q14" else "sLTP_Q15"}={if Opus.SilkSynthIdx.frameInitOk st fi then "ok" else "bad"}} st={t.fsKHz} {t.nbSubfr} {t.lossCnt} {t.prevSignalType} {t.lagPrev} {b t.firstFrameAfterReset} {t.plcFs} {t.pitchLQ8} {t.plcNb} {t.plcSubfr} {b t.lastFrameLost} {t.plcSeed} {t.cngFs} {t.cngSeed}"
     | _, _, _, _, _, _, _ => "bad-op"
+  | ["stereo-quant", p0, p1, ixs] =>
+    match parseInt p0, parseInt p1, parseIntList ixs with
+    | some p0, some p1, some ix =>
+      if ix.length ≠ 6 then "bad-op"
+      else match Opus.SilkStereo.quantPred p0 p1 ix with
+        | some q => s!"OK {q.pred0} {q.pred1} {intList q.ix}"
+        | none => "UB"
+    | _, _, _ => "bad-op"
+  | ["stereo-dec", n, a0, b0, a1, b1] =>
+    match [n, a0, b0, a1, b1].mapM parseInt with
+    | some [n, a0, b0, a1, b1] =>
+      match Opus.SilkStereo.decodePred n a0 b0 a1 b1 with
+      | .ok (x, y) => s!"OK {x} {y}"
+      | _ => "OOB"
+    | _ => "bad-op"
+  | ["stereo-syms", ixs] =>
+    match parseIntList ixs with
+    | some ix =>
+      if ix.length ≠ 6 then "bad-op"
+      else match Opus.SilkStereo.encodeSyms ix with
+        | .ok syms => s!"OK {intList (syms.map (·.1))} {natList (syms.map (·.2))}"
+        | _ => "ABORT"
+    | none => "bad-op"
+  | ["stereo-rt", p0, p1, size] =>
+    match parseInt p0, parseInt p1, parseNat size with
+    | some p0, some p1, some size => if size < 4 ∨ size > 64 then "bad-op" else stereoRoundTrip p0 p1 size
+    | _, _, _ => "bad-op"
+  | ["stereo-tabs"] =>
+    s!"OK {intList Opus.SilkStereo.tab} {natList Opus.Gen.SilkStereoTabs.predJointIcdf} {natList Opus.Gen.SilkStereoTabs.uniform3Icdf} {natList Opus.Gen.SilkStereoTabs.uniform5Icdf} {natList Opus.Gen.SilkStereoTabs.onlyCodeMidIcdf} {Opus.SilkStereo.subSteps} {Opus.SilkStereo.halfSubStepQ16}"
   | _ => "bad-op"
 
 end Driver.SuiteSilkParams
